@@ -14,9 +14,9 @@
     `BoundedDiscrete`, Python's float `%`, the `numpy.isclose` snapping of
     `BoundedEigenvector.__contains__`, and the branches of the solid-angle jump.
   * Arithmetic is exact over `Rat`.  IEEE rounding is *not* modelled; where the
-    real code's behaviour depends on it (the vMF inverse cdf, `arccos` of a
-    rounded argument, the pole division) the value computed by the float code is
-    an oracle input and the model branches on it explicitly (NaN outcomes).
+    real code's behaviour depends on it (`log1p`/`arccos` of a rounded argument,
+    `rxy > 0` at the pole) the value computed by the float code is an oracle input
+    and the model branches on it explicitly (NaN outcomes).
 -/
 namespace Epsie.Domain
 
@@ -111,23 +111,30 @@ def normalDraw (mu sd z : Rat) : Rat := mu + sd * z
 def dstep (successive : Bool) (d : Rat) : Int :=
   if successive then roundHalfEven d else floorceil d
 
-/-- `NormalDiscrete._jump`: one draw per parameter, no bounds, no refusal. -/
-def ndLoop : List Bool → List Rat → List Rat → Option (List Int × List Rat)
+/-- Which draws one parameter of the discrete proposals accepts as a jump: with successive
+    jumps any draw, otherwise only a non-zero one (`while dx == 0: draw again`). -/
+def ndOk (successive : Bool) (d : Rat) : Bool := successive || decide (d ≠ 0)
+
+/-- `NormalDiscrete._jump`: per parameter the first acceptable draw (one draw when successive
+    jumps are allowed; otherwise draws of exactly zero are drawn again), no bounds, no refusal. -/
+def ndLoop (fuel : Nat) : List Bool → List Rat → List Rat → Option (List Int × List Rat)
   | [], _, ds => some ([], ds)
   | _ :: _, [], _ => none
-  | _ :: _, _ :: _, [] => none
-  | s :: ss, x :: xs, d :: ds =>
-    match ndLoop ss xs ds with
+  | s :: ss, x :: xs, ds =>
+    match firstIn (ndOk s) fuel ds with
     | none => none
-    | some (ys, r) => some ((truncZ x + dstep s d) :: ys, r)
+    | some (d, ds') =>
+      match ndLoop fuel ss xs ds' with
+      | none => none
+      | some (ys, r) => some ((truncZ x + dstep s d) :: ys, r)
 
-def ndJump (succ : List Bool) (x : List Rat) (draws : List Rat) : Outcome (List Int) :=
-  match ndLoop succ x draws with
+def ndJump (succ : List Bool) (x : List Rat) (fuel : Nat) (draws : List Rat) : Outcome (List Int) :=
+  match ndLoop fuel succ x draws with
   | some (ys, r) => .ok ys r
   | none => .starved
 
-def ndJump? (succ : List Bool) (x : List Rat) (draws : List Rat) : Option (List Int) :=
-  (ndJump succ x draws).toOption
+def ndJump? (succ : List Bool) (x : List Rat) (fuel : Nat) (draws : List Rat) : Option (List Int) :=
+  (ndJump succ x fuel draws).toOption
 
 /-- A parameter of `BoundedDiscrete`: the bounds as given to the constructor and
     the `successive` toggle. -/
@@ -147,12 +154,18 @@ def DBox.box (b : DBox) : Box := { lo := (b.ilo : Rat), hi := (b.ihi : Rat) }
 
 def DBox.containsZ (b : DBox) (k : Int) : Bool := decide (b.ilo ≤ k) && decide (k ≤ b.ihi)
 
-/-- The loop of one parameter: `x0 = int(fromx[p])`; draw until `x0 + step` is inside. -/
+/-- The acceptance test of one draw in `BoundedDiscrete._jump`:
+    `(newpt in self) and (self.successive[p] or deltax != 0)`. -/
+def DBox.accepts (b : DBox) (x0 : Int) (d : Rat) : Bool :=
+  b.containsZ (x0 + dstep b.succ d) && (b.succ || decide (dstep b.succ d ≠ 0))
+
+/-- The loop of one parameter: `x0 = int(fromx[p])`; draw until `x0 + step` is inside
+    (and, unless successive jumps are allowed, the step is not zero). -/
 def bdFirst (b : DBox) (x0 : Int) : Nat → List Rat → Option (Int × List Rat)
   | 0, _ => none
   | _, [] => none
   | f + 1, d :: ds =>
-    if b.containsZ (x0 + dstep b.succ d) then some (x0 + dstep b.succ d, ds)
+    if b.accepts x0 d then some (x0 + dstep b.succ d, ds)
     else bdFirst b x0 f ds
 
 def bdLoop (fuel : Nat) : List DBox → List Rat → List Rat → Option (List Int × List Rat)
@@ -319,7 +332,6 @@ structure SACfg where
   radec : Bool
   degs : Bool
   kappa : Rat
-  norm : Rat      -- the stored normalisation κ/(4π sinh κ) (a float)
 deriving Repr
 
 /-- The numpy calls of one `_jump`, in the order the code makes them. -/
@@ -328,16 +340,17 @@ structure SAOracle where
   cosP0 : Site
   sinP0 : Site
   cosT0 : Site
-  expK : Site     -- _new_point: exp(kappa)
-  logA : Site     --             log(exp(kappa) - kappa*cdf/(2 pi norm))
-  acosW : Site    --             arccos(log(..)/kappa)
+  expm1 : Site    -- _new_point: expm1(-2 kappa)
+  log1p : Site    --             log1p(cdf * expm1(-2 kappa))
+  clipW : Site    --             clip(1 + log1p(..)/kappa, -1, 1)
+  acosW : Site    --             arccos(clipped)
   sinT1 : Site    -- _spherical2cartesian(new point)
   cosP1 : Site
   sinP1 : Site
   cosT1 : Site
   acosMz : Site   -- _rotmat: beta = arccos(mu[2])
-  sqrtR : Site    --          sqrt(mu[0]**2 + mu[1]**2)
-  acosG : Site    --          gamma = arccos(mu[0] / sqrt(..))
+  sqrtR : Site    --          rxy = sqrt(mu[0]**2 + mu[1]**2)
+  acosG : Option Site  --     gamma = arccos(mu[0] / rxy), a call made only if rxy > 0
   sinB : Site
   sinG : Site
   cosB : Site
@@ -369,10 +382,15 @@ def saFromColat (k : Consts) (c : SACfg) (a t : Rat) : Rat × Rat :=
   let t := if c.radec then (if c.degs then t - 90 else t - k.pi / 2) else t
   (phi, t)
 
-/-- The argument of the logarithm in `_new_point` (exact arithmetic), from the float
-    `E = exp(kappa)`. -/
-def vmfArg (k : Consts) (c : SACfg) (E cdf : Rat) : Rat :=
-  E - c.kappa * cdf / (2 * k.pi * c.norm)
+/-- `numpy.clip(x, -1, 1)` on a finite value. -/
+def clip1 (q : Rat) : Rat := if q < -1 then -1 else if 1 < q then 1 else q
+
+/-- `numpy.clip(x, -1, 1)` on what numpy may hand it: infinities are clipped, NaN stays. -/
+def clipXR : XR → XR
+  | .fin q => .fin (clip1 q)
+  | .pinf => .fin 1
+  | .ninf => .fin (-1)
+  | .nan => .nan
 
 /-- `R(beta, gamma) · v` with the entries of `_rotmat`. -/
 def rotApply (sb cb sg cg : Rat) (v : Rat × Rat × Rat) : Rat × Rat × Rat :=
@@ -428,22 +446,29 @@ def saJumpE (k : Consts) (c : SACfg) (phi0 theta0 u1 u2 : Rat) (o : SAOracle) :
   let mu : Rat × Rat × Rat := (st0 * cp0, st0 * sp0, ct0)
   -- _new_point
   let phi1 := u1 * (2 * k.pi)
-  let (E, dev) ← useFin "expK" o.expK c.kappa (rabs c.kappa) dev
-  let A := vmfArg k c E u2
-  -- log: the recorded argument is what the float subtraction produced; the code takes
-  -- the logarithm of that.  Non-positive: log gives -inf or NaN, arccos then NaN.
-  let Ar ← match o.logA.arg with
+  let (em, dev) ← useFin "expm1" o.expm1 (-2 * c.kappa) (rabs (2 * c.kappa)) dev
+  -- log1p: the code takes it of the float product cdf*expm1(..) (recorded argument); below -1
+  -- numpy returns NaN, at -1 it returns -inf
+  let Ar ← match o.log1p.arg with
     | .fin a => pure a
-    | _ => throw (.desync "logA")
-  let dev := maxR dev (rabs (Ar - A) / (if E < 1 then 1 else E))
-  if Ar ≤ 0 then
-    match o.acosW.val with
-    | .nan => throw (.nan "vmf-log" dev)
-    | _ => throw (.desync "acosW")
-  let L ← match o.logA.val with
-    | .fin v => pure v
-    | _ => throw (.desync "logA")
-  let (t1, dev) ← useAcos "vmf-arccos" o.acosW (L / c.kappa) dev
+    | _ => throw (.desync "log1p")
+  let dev := maxR dev (rabs (Ar - u2 * em))
+  if Ar < -1 then
+    match o.log1p.val with
+    | .nan => throw (.nan "vmf-log1p" dev)
+    | _ => throw (.desync "log1p")
+  -- costheta = 1 + log1p(..)/kappa, then clip(costheta, -1, 1): exact on the recorded argument
+  let (cosT, dev) ← match o.log1p.val with
+    | .fin L =>
+      match argDev o.clipW.arg (1 + L / c.kappa) 1 with
+      | some d => pure (o.clipW.arg, maxR dev d)
+      | none => throw (.desync "clipW")
+    | .ninf => if o.clipW.arg = .ninf then pure (XR.ninf, dev) else throw (.desync "clipW")
+    | _ => throw (.desync "log1p")
+  let w ← match clipXR cosT with
+    | .fin w => if o.clipW.val = .fin w then pure w else throw (.desync "clipW")
+    | _ => throw (.desync "clipW")
+  let (t1, dev) ← useAcos "vmf-arccos" o.acosW w dev
   let (st1, dev) ← useFin "sinT1" o.sinT1 t1 (rabs t1) dev
   let (cp1, dev) ← useFin "cosP1" o.cosP1 phi1 (rabs phi1) dev
   let (sp1, dev) ← useFin "sinP1" o.sinP1 phi1 (rabs phi1) dev
@@ -453,13 +478,18 @@ def saJumpE (k : Consts) (c : SACfg) (phi0 theta0 u1 u2 : Rat) (o : SAOracle) :
   let (beta, dev) ← useAcos "rot-beta" o.acosMz mu.2.2 dev
   let r := mu.1 * mu.1 + mu.2.1 * mu.2.1
   let (sq, dev) ← useFin "sqrtR" o.sqrtR r 1 dev
-  -- the pole: sqrt(..) = 0, the code divides by it (0/0 = NaN, x/0 = ±inf), arccos gives NaN
-  if sq = 0 then
-    match o.acosG.val with
-    | .nan => throw (.nan "pole" dev)
-    | _ => throw (.desync "acosG")
-  let (g0, dev) ← useAcos "rot-gamma" o.acosG (mu.1 / sq) dev
-  let gamma := if mu.2.1 < 0 then 2 * k.pi - g0 else g0
+  -- `if rxy > 0: gamma = arccos(mu[0]/rxy), reflected when mu[1] < 0; else: gamma = 0` (at a
+  -- pole the azimuthal rotation is arbitrary and no arccos call is made)
+  let (gamma, dev) ← if 0 < sq then
+      match o.acosG with
+      | some site => do
+        let (g0, dev) ← useAcos "rot-gamma" site (mu.1 / sq) dev
+        pure (if mu.2.1 < 0 then 2 * k.pi - g0 else g0, dev)
+      | none => throw (.desync "acosG")
+    else
+      match o.acosG with
+      | none => pure ((0 : Rat), dev)
+      | some _ => throw (.desync "acosG")
   let (sb, dev) ← useFin "sinB" o.sinB beta 1 dev
   let (sg, dev) ← useFin "sinG" o.sinG gamma 1 dev
   let (cb, dev) ← useFin "cosB" o.cosB beta 1 dev
